@@ -589,3 +589,50 @@ Proof.
   unfold osc_server_deliver. destruct (osc_find_opt OSC_OPT (m_opts o)); [|discriminate].
   destruct (osc_is_request (m_code o)); [tauto|discriminate].
 Qed.
+
+(* ---- context lookup rule (RFC 8613 8.2 step 2): a request is only ever verified against the
+   recipient context whose Recipient ID is the received kid AND whose ID Context is exactly the
+   received kid context (none = empty); no prefix, no extension, no other value ---- *)
+Definition osc_ctx_bytes (x : option bytes) : bytes := match x with Some c => c | None => [] end.
+
+Lemma osc_ctx_match_spec kc cfg :
+  osc_ctx_match kc cfg = true <-> osc_ctx_bytes kc = osc_ctx_bytes cfg.
+Proof.
+  unfold osc_ctx_match, osc_ctx_bytes. split.
+  - apply osc_bytes_eqb_eq.
+  - intros ->. apply osc_bytes_eqb_refl.
+Qed.
+
+Theorem osc_request_lookup_rule dec s o m' :
+  osc_unprotect_req_gen dec s o = Some m' ->
+  exists ov piv kc,
+    osc_find_opt OSC_OPT (m_opts o) = Some ov /\
+    osc_opt_decode (snd ov) = Some (piv, kc, Some (sc_rid s)) /\
+    osc_ctx_bytes kc = osc_ctx_bytes (sc_idctx s).
+Proof.
+  intros H. unfold osc_unprotect_req_gen in H.
+  destruct (osc_find_opt OSC_OPT (m_opts o)) as [[n9 ov]|] eqn:Ef; [|discriminate].
+  destruct (osc_opt_decode ov) as [[[piv kc] kid]|] eqn:Ed; [|discriminate].
+  destruct kid as [k|]; [|discriminate].
+  destruct piv as [|p0 ps]; [discriminate|].
+  destruct (osc_bytes_eqb k (sc_rid s)) eqn:Ek; cbn [negb] in H; [|discriminate].
+  apply osc_bytes_eqb_eq in Ek. subst k.
+  destruct (osc_ctx_match kc (sc_idctx s)) eqn:Ec; cbn [negb] in H; [|discriminate].
+  exists (n9, ov), (p0 :: ps), kc. cbn [snd]. repeat split; try assumption.
+  apply osc_ctx_match_spec. exact Ec.
+Qed.
+
+(* in particular: with a non-empty ID Context a request without kid context, or with any kid
+   context of another length (a proper prefix, an extension), is rejected whatever the AEAD *)
+Corollary osc_request_kid_context_length dec s o c ov piv kc kid :
+  sc_idctx s = Some c ->
+  osc_find_opt OSC_OPT (m_opts o) = Some ov ->
+  osc_opt_decode (snd ov) = Some (piv, kc, kid) ->
+  len (osc_ctx_bytes kc) <> len c ->
+  osc_unprotect_req_gen dec s o = None.
+Proof.
+  intros Hc Hf Hd Hl. destruct (osc_unprotect_req_gen dec s o) as [m'|] eqn:E; [|reflexivity].
+  destruct (osc_request_lookup_rule dec s o m' E) as (ov' & piv' & kc' & Hf' & Hd' & Hm).
+  rewrite Hf in Hf'. inversion Hf'. subst ov'. rewrite Hd in Hd'. inversion Hd'. subst.
+  rewrite Hc in Hm. change (osc_ctx_bytes (Some c)) with c in Hm. rewrite Hm in Hl. congruence.
+Qed.
